@@ -22,8 +22,6 @@ import (
 	"time"
 
 	"oss.terrastruct.com/d2/d2cli"
-	"oss.terrastruct.com/d2/d2format"
-	"oss.terrastruct.com/d2/d2parser"
 	"oss.terrastruct.com/util-go/xmain"
 )
 
@@ -78,10 +76,33 @@ type c48Op struct {
 	Data []byte
 }
 
-func (o c48Op) coq() string {
+// c48Share names every distinct content of a case once (`let vN := [...] in`), so that Coq parses
+// each byte list a single time.
+type c48Share struct {
+	names map[string]string
+	defs  []string
+}
+
+func (sh *c48Share) ref(b []byte) string {
+	if len(b) <= 8 {
+		return coqBytes(string(b))
+	}
+	if sh.names == nil {
+		sh.names = map[string]string{}
+	}
+	if n, ok := sh.names[string(b)]; ok {
+		return n
+	}
+	n := fmt.Sprintf("v%d", len(sh.names))
+	sh.names[string(b)] = n
+	sh.defs = append(sh.defs, fmt.Sprintf("let %s := %s in", n, c48Content(b)))
+	return n
+}
+
+func (o c48Op) coq(sh *c48Share) string {
 	switch o.Kind {
 	case "Write":
-		return fmt.Sprintf("Write %d %s", o.P, c48Content(o.Data))
+		return fmt.Sprintf("Write %d %s", o.P, sh.ref(o.Data))
 	case "Rename":
 		return fmt.Sprintf("Rename %d %d", o.P, o.Q)
 	}
@@ -261,6 +282,14 @@ func c48Parse(trace string, target string) (ops []c48Op, problems []string) {
 			ib, rb := relevant(b)
 			if ra && rb {
 				ops = append(ops, c48Op{Kind: "Rename", P: ia, Q: ib})
+				// descriptors stay attached to the file, which now has the destination's name
+				for fd, id := range fds {
+					if id == ia {
+						fds[fd] = ib
+					} else if id == ib {
+						delete(fds, fd) // the replaced file is no longer reachable under a relevant name
+					}
+				}
 			} else if ra {
 				ops = append(ops, c48Op{Kind: "Remove", P: ia}) // moved away
 			} else if rb {
@@ -363,7 +392,7 @@ func c48Gen(r *Rng, tier string, n int) []Case {
 	specs = append(specs,
 		c48Spec{cmd: 0, name: "f.d2", input: "a   ->  b\nc: {  x }\n", class: "fmt-corpus", nKills: 3},
 		c48Spec{cmd: 0, name: "formatted.d2", input: "a -> b\n", class: "fmt-already-formatted"},
-		c48Spec{cmd: 0, name: "big.d2", input: c48Unformatted(r.Fork(), 6000), class: "fmt-corpus", nKills: 2},
+		c48Spec{cmd: 0, name: "big.d2", input: c48Unformatted(r.Fork(), 4000), class: "fmt-corpus", nKills: 2},
 		c48Spec{cmd: 0, name: "x.d2", input: "x:   1\n", mode: 0o600, class: "fmt-corpus", nKills: 1},
 		c48Spec{cmd: 1, name: "out.svg", input: "a -> b\n", old: str("<svg>previous render</svg>\n"), class: "render-overwrite", nKills: 2},
 		c48Spec{cmd: 1, name: "new.svg", input: "x\n", class: "render-fresh", nKills: 1},
@@ -401,16 +430,6 @@ func c48Gen(r *Rng, tier string, n int) []Case {
 	}
 	wg.Wait()
 	return out
-}
-
-// c48NeedsFormatting: the KF signature, a predicate on the input alone (`d2 fmt` only rewrites a
-// file whose formatted text differs from its content).
-func c48NeedsFormatting(src string) bool {
-	m, err := d2parser.Parse("f.d2", strings.NewReader(src), nil)
-	if err != nil {
-		return false
-	}
-	return d2format.Format(m) != src
 }
 
 func c48Case(dir string, sp c48Spec) (cs Case) {
@@ -536,15 +555,16 @@ func c48Case(dir string, sp c48Spec) (cs Case) {
 		kills = append(kills, kill{k: len(kops), content: read(), inject: inj})
 	}
 
+	sh := &c48Share{}
 	optC := func(s *string) string {
 		if s == nil {
 			return "None"
 		}
-		return "(Some " + c48Content([]byte(*s)) + ")"
+		return "(Some " + sh.ref([]byte(*s)) + ")"
 	}
 	var opsC, opsS, killsC []string
 	for _, o := range ops {
-		opsC = append(opsC, o.coq())
+		opsC = append(opsC, o.coq(sh))
 		opsS = append(opsS, o.String())
 	}
 	var killsJ []map[string]any
@@ -560,7 +580,8 @@ func c48Case(dir string, sp c48Spec) (cs Case) {
 		}
 		killsJ = append(killsJ, kj)
 	}
-	cs.Coq = fmt.Sprintf("Case %d %s %s %s %s", sp.cmd, optC(old), c48Content([]byte(newc)), coqList(opsC), coqList(killsC))
+	body := fmt.Sprintf("Case %d %s %s %s %s", sp.cmd, optC(old), sh.ref([]byte(newc)), coqList(opsC), coqList(killsC))
+	cs.Coq = "(" + strings.Join(sh.defs, " ") + " " + body + ")"
 	oldLen := -1
 	if old != nil {
 		oldLen = len(*old)
@@ -569,9 +590,5 @@ func c48Case(dir string, sp c48Spec) (cs Case) {
 	cs.Impl = map[string]any{"ops": strings.Join(opsS, " "), "new_bytes": len(newc), "kills": killsJ}
 	cs.Nontrivial = len(ops) > 0
 	cs.Key = fmt.Sprintf("%d/%s/%d", sp.cmd, strings.Join(opsS, " "), len(sp.input))
-	// known finding: `d2 fmt` rewrites a file that needs reformatting through os.WriteFile
-	if sp.cmd == 0 && c48NeedsFormatting(sp.input) {
-		cs.KF = []string{"C48-fmt-truncating-write"}
-	}
 	return cs
 }
